@@ -33,3 +33,14 @@ func VerifDefaultFlags() []bool {
 	}
 	return out
 }
+
+// VerifSetDefaultFlags overwrites the negationsAfter flags of the
+// package-level default rule list (used to put the shared state into a chosen
+// reachable configuration before a run).
+func VerifSetDefaultFlags(flags []bool) {
+	for i := range defaultExclusions {
+		if i < len(flags) {
+			defaultExclusions[i].negationsAfter = flags[i]
+		}
+	}
+}
